@@ -20,7 +20,8 @@ SQLite path (real engine, real file, default rollback journal):
   commit has been issued since, S_{a+1}; anything else is a partial / lost / premature commit. With an
   injected error the exception must leave the session (or the commit() call the program guards).
   For programs that catch a failed commit() and continue, the failed interval must be entirely absent
-  (or, if the driver commit had been issued, entirely present) next to the rest of the program.
+  (or, if the driver commit had been issued, entirely present) next to the rest of the program; for
+  programs that catch a failed raw db.execute() and continue, the rest of the program is the transaction.
 
 PostgreSQL path (MODEL-BASED, vf.props._fx_pg): the real core.py + PGProvider/PGPool on a fake
 psycopg2 connection (autocommit flag, commit, rollback, close, statement log; SQLite as relational
@@ -37,6 +38,7 @@ LEVEL = 'fault_enumeration'
 KINDS = ('opt', 'imm', 'ser')
 CATCH = ('ccommit', 'cdbcommit')
 CONTROL = ('commit', 'dbcommit') + CATCH
+GUARDED = ('xri', 'xru')          # raw statement whose failure the program catches before it goes on
 WRITE_OPS = ('c', 'cp', 'u1', 'u2', 'd1', 'l', 'ul', 'ri', 'ru', 'g')
 CORE_OPS = ('c', 'u1', 'd1', 'l', 'ri', 'ru')
 
@@ -96,6 +98,9 @@ def make_program(tokens, kind):
                     try: (orm.commit if t == 'ccommit' else w.db.commit)()
                     except Exception as e: px.caught(e); mark(w, 'caught')
                     else: px.ack(); mark(w, 'ack')
+                elif t in GUARDED:
+                    try: OPS[t[1:]](w)
+                    except Exception as e: px.caught(e); mark(w, 'caught-op')
                 else: OPS[t](w)
             px.start(); mark(w, 'start')
         px.ack(); mark(w, 'ack')
@@ -103,13 +108,14 @@ def make_program(tokens, kind):
 
 def prog_class(tokens):
     if any(t in CATCH for t in tokens): return 'catch'
+    if any(t in GUARDED for t in tokens): return 'guarded-op'
     if any(t in CONTROL for t in tokens): return 'mid-commit'
     return 'straight'
 
 # ---- program spaces ---------------------------------------------------------------------------------
 def valid(tokens):
     """a program must not use Person[1] after deleting it"""
-    ops = [t for t in tokens if t not in CONTROL]
+    ops = [t[1:] if t in GUARDED else t for t in tokens if t not in CONTROL]
     if len(set(ops)) != len(ops): return False
     if 'd1' in ops and any(t in ('u1', 'ul') for t in ops[ops.index('d1') + 1:]): return False
     return True
@@ -142,6 +148,7 @@ def programs(tier, path):
         for a, b in prs[2::10]: add([a, b, 'ccommit', 'g'])
         for a, b in prs[5::10]: add([a, b, 'cdbcommit', 'g'])
         add(['cp', 'ccommit', 'ru']); add(['d1', 'cdbcommit', 'ri'])
+        add(['xri', 'ru']); add(['u1', 'xri', 'g']); add(['l', 'xru', 'c'])
     else:
         for a in WRITE_OPS: add([a], 'fork', 'pairs')
         for a, b in allp: add([a, b], 'fork', *(('pairs',) if (a, b) in prs[::2] else ()))
@@ -155,6 +162,9 @@ def programs(tier, path):
         for a in ('cp', 'd1'):
             for x in CATCH:
                 for b in ('ru', 'ri', 'l'): add([a, x, b])
+        for x in GUARDED:
+            add([x, 'g'])
+            for a, b in prs: add([x, a, b]); add([a, x, b])
     return out
 
 # ---- oracle -------------------------------------------------------------------------------------------
@@ -206,6 +216,8 @@ def judge(ref_pack, x, tokens):
         out.append(('error-swallowed', None))
     if not caught:
         return out + judge_straight(S, x)
+    if 'S_minus' in ref_pack:               # the guarded raw statement failed as a whole: the rest of the program is the transaction
+        return out + judge_straight(ref_pack['S_minus'], x)
     out += judge_straight(S, x, upto=caught[0], skip_final=True)
     if x.exc is not None:
         return out                      # a second failure after the caught one: judged by the obs part only
@@ -285,6 +297,10 @@ def reference(w, tokens, kind):
         rb = w.run(make_program(tokens[i + 1:], kind), observe=False, snapshots=True)
         if rb.exc is not None: return None
         pack['F_B'] = rb.final
+    if prog_class(tokens) == 'guarded-op':
+        rb = w.run(make_program(tuple(t for t in tokens if t not in GUARDED), kind), observe=True, snapshots=True)
+        if rb.exc is not None: return None
+        pack['S_minus'] = snapshots(rb)
     return pack
 
 def run_task(task):
@@ -304,7 +320,8 @@ def run_task(task):
     sub.count('%s_programs' % path)
     nwrites = sum(1 for c in ref.calls if c[0] in ('execute', 'executemany') and c[1] and fx.dbapi.is_write(c[1]))
     ncommits = sum(1 for c in ref.calls if c[0] == 'commit')
-    if nwrites == 0 or ncommits == 0: sub.count('shapes_without_write_or_commit')
+    if nwrites == 0: sub.count('shapes_without_write_or_commit')     # (a missing commit call is a symptom the oracle judges, not a guard)
+    if ncommits: sub.count('programs_with_a_commit_call')
     if len(set(S)) < 2: sub.count('programs_without_visible_effect')
     # the fault-free run itself must obey the rule (observer crash plans at every call)
     for comp, k in judge(pack, ref, tokens) + (pg_judge_log(ref.notes[-1][1]) if path == 'pg' else []):
@@ -417,7 +434,7 @@ def crash(sub, w, pack, tokens, kind, pc, k, after, outcomes, stats):
     site = ('after-' if after else '') + fx.call_class(ref.calls[k])
     idx = S.index(r['final']) if r['final'] in S else -1
     outcomes.add('sqlite|%s|%s|crash|acked=%d|final=S%d' % (pc, site, r['acked'], idx))
-    if any(t in CATCH for t in tokens) and 'x' in r['progress']: return
+    if any(t in CATCH + GUARDED for t in tokens) and 'x' in r['progress']: return
     ok = allowed_states(S, r['acked'], r['commit_issued'] or after)
     if r['final'] not in ok:
         comp = 'crash:' + classify(S, r['final'], r['acked'])
@@ -454,7 +471,7 @@ def run(ctx):
     ctx.guard('distinct post-fault outcomes', len(outcomes), 50)
     ctx.guard('executions in which the error left the session', c.get('error_propagated', 0), 1000)
     ctx.guard('pg reconnects absorbed by Pony', c.get('pg_reconnects_absorbed', 0), 10)
-    ctx.guard('every program has a write and a commit call (negated count)', -c.get('shapes_without_write_or_commit', 0), 0)
+    ctx.guard('every program issues a write statement (negated count)', -c.get('shapes_without_write_or_commit', 0), 0)
     ctx.guard('every program changes committed rows (negated count)', -c.get('programs_without_visible_effect', 0), 0)
     ctx.guard('reference runs that failed (negated count)', -c.get('reference_run_failed', 0), 0)
     ctx.guard('violations that did not reproduce (negated count)', -c.get('nondeterministic_violation', 0), 0)
